@@ -38,8 +38,11 @@ def judge (fam payload impl : String) : Verdict :=
   | "kfl.fuzz" => Kfl.Driver.judgeFuzz payload impl
   | "kfl.reuse" => Kfl.Driver.judgeEval .reuse payload impl
   | "kfl.macro" => Kfl.Macro.judge payload impl
+  | "kfl.api" => Kfl.Macro.judgeApi payload impl
+  | "kfl.redactf" => Kfl.Macro.judgeRedactF payload impl
   | "sched.emit" => Sched.judgeEmit payload impl
   | "sched.excl" => Sched.judgeExcl payload impl
+  | "sched.indep" => Sched.judgeIndep payload impl
   | "sched.dump" => Sched.judgeDump payload impl
   | _ =>
     if fam.startsWith "cost." then Cost.judge payload impl
